@@ -38,6 +38,7 @@ def check_case(ctx, case, enum=False, sk_cache=None):
     baselen = SU.olen(n)
     ctx.ev()
     key = (case["curve"], dd)
+    ctx.case_sample(case)
     try:
         if sk_cache is not None and key in sk_cache:
             sk = sk_cache[key]
